@@ -17,6 +17,9 @@ fn compare<F: Family>(data: &[u8], one: &PollRun<F>, run: &PollRun<F>, what: &st
         Ok(ok) => format!("Ok(total {}, body {} bytes, {})", ok.total, ok.body.len(), fam::render(&ok.pkt).chars().take(100).collect::<String>()),
         Err(e) => format!("Err({:?})", e),
     };
+    if let Some(got) = &run.transient_not_surfaced {
+        return Err(format!("{}: the transport reported a transient failure in a poll and the decoder answered {} instead of handing that I/O error on; stream {}", what, got, hex_short(data, 64)));
+    }
     if run.result != one.result {
         return Err(format!("{}: result {} differs from the uninterrupted run's {} on stream {}", what, show(run), show(one), hex_short(data, 64)));
     }
@@ -59,6 +62,10 @@ fn compare<F: Family>(data: &[u8], one: &PollRun<F>, run: &PollRun<F>, what: &st
     Ok(())
 }
 
+/// Failures after which a caller ordinarily tries again with the state it holds: the read was interrupted, would
+/// have blocked, or ran into a read timeout. Nothing was consumed; the bytes are delivered by the next read.
+pub const TRANSIENT: [std::io::ErrorKind; 3] = [std::io::ErrorKind::Interrupted, std::io::ErrorKind::WouldBlock, std::io::ErrorKind::TimedOut];
+
 /// schedule from a composition: bit i of `comp` set => the chunk ends after byte i+1
 fn composition_steps(n: usize, comp: u64, mode: u64) -> Vec<Step> {
     let mut steps = Vec::new();
@@ -67,14 +74,18 @@ fn composition_steps(n: usize, comp: u64, mode: u64) -> Vec<Step> {
         run += 1;
         let cut = i + 1 == n || (comp >> i) & 1 == 1;
         if cut {
-            if mode >= 1 {
+            if mode == 4 {
+                steps.push(Step::Fail(TRANSIENT[(i + run) % TRANSIENT.len()]));
+            } else if mode >= 1 {
                 steps.push(Step::Pending);
             }
             steps.push(Step::Chunk(run));
             run = 0;
         }
     }
-    if mode >= 1 {
+    if mode == 4 {
+        steps.push(Step::Fail(TRANSIENT[n % TRANSIENT.len()]));
+    } else if mode >= 1 {
         steps.push(Step::Pending); // also before the read that meets EOF / after the last chunk
     }
     steps
@@ -136,14 +147,15 @@ fn case_compositions<F: Family>(input: &Input, ctx: &mut Ctx) -> CaseResult {
     compare::<F>(data, &one, &one, "one-shot").map_err(Violation::new)?;
     let mut runs = 0u64;
     for comp in first..first + count {
-        for mode in 0..4u64 {
-            // mode 3 = mode 2 continuing from a clone of the caller-held state
-            let steps = composition_steps(data.len(), comp, mode.min(2));
-            let drop_mask = if mode >= 2 { u64::MAX } else { 0 };
+        for mode in 0..5u64 {
+            // mode 3 = mode 2 continuing from a clone of the caller-held state;
+            // mode 4 = a transient transport failure before every read, after which the caller polls again
+            let steps = composition_steps(data.len(), comp, if mode == 4 { 4 } else { mode.min(2) });
+            let drop_mask = if mode == 2 || mode == 3 { u64::MAX } else { 0 };
             // the transport's way of filling the ReadBuf alternates with the composition
-            let style = ((comp ^ mode) & 1) as u8 | if mode == 3 { 2 } else { 0 };
+            let style = ((comp ^ mode) & 1) as u8 | if mode == 3 { 2 } else { 0 } | if mode == 4 { ((comp % 6) as u8) << 4 } else { 0 };
             let run = fam::dec_poll_styled::<F>(data, &steps, drop_mask, None, true, style);
-            let what = format!("{} composition {:#b} of {} bytes, mode {} ({}), transport fill style {}", F::FAM.name(), comp, data.len(), mode, ["no Pending", "Pending before every read", "Pending before every read, future dropped and re-created at every Pending", "Pending before every read, future re-created from a clone of the state at every Pending"][mode as usize], style);
+            let what = format!("{} composition {:#b} of {} bytes, mode {} ({}), transport fill style {}", F::FAM.name(), comp, data.len(), mode, ["no Pending", "Pending before every read", "Pending before every read, future dropped and re-created at every Pending", "Pending before every read, future re-created from a clone of the state at every Pending", "a transient transport failure (Interrupted / WouldBlock / TimedOut) before every read, polled again with the same state"][mode as usize], style);
             if let Err(m) = compare::<F>(data, &one, &run, &what) {
                 ctx.refine = Some((if F::FAM == crate::model::Fam::V3 { "c05.schedule.v3" } else { "c05.schedule.v5" }, Input::Nums(vec![si as u64, comp, mode])));
                 return Err(Violation::new(m));
@@ -157,7 +169,7 @@ fn case_compositions<F: Family>(input: &Input, ctx: &mut Ctx) -> CaseResult {
     ctx.label(if one.result.is_ok() { "stream:accepted" } else { "stream:rejected-or-incomplete" });
     if first == 0 {
         ctx.label(&format!("stream-type:{}", type_name(data[0] >> 4)));
-        ctx.sample(|| format!("{} stream {} ({} bytes): compositions {}.. x 3 modes; one-shot result {:?}", F::FAM.name(), hex_short(data, 24), data.len(), first, one.result.as_ref().map(|o| o.total)));
+        ctx.sample(|| format!("{} stream {} ({} bytes): compositions {}.. x 5 modes; one-shot result {:?}", F::FAM.name(), hex_short(data, 24), data.len(), first, one.result.as_ref().map(|o| o.total)));
     }
     Ok(())
 }
@@ -168,9 +180,9 @@ fn case_schedule<F: Family>(input: &Input, ctx: &mut Ctx) -> CaseResult {
     let streams = short_streams::<F>();
     let data = streams.get(n[0] as usize).ok_or_else(|| Violation::new("MQV-INTERNAL: stream index out of range"))?;
     let one = fam::dec_poll_scripted::<F>(data, &[], 0, None, true);
-    let steps = composition_steps(data.len(), n[1], n[2].min(2));
-    let style = ((n[1] ^ n[2]) & 1) as u8 | if n[2] == 3 { 2 } else { 0 };
-    let run = fam::dec_poll_styled::<F>(data, &steps, if n[2] >= 2 { u64::MAX } else { 0 }, None, true, style);
+    let steps = composition_steps(data.len(), n[1], if n[2] == 4 { 4 } else { n[2].min(2) });
+    let style = ((n[1] ^ n[2]) & 1) as u8 | if n[2] == 3 { 2 } else { 0 } | if n[2] == 4 { ((n[1] % 6) as u8) << 4 } else { 0 };
+    let run = fam::dec_poll_styled::<F>(data, &steps, if n[2] == 2 || n[2] == 3 { u64::MAX } else { 0 }, None, true, style);
     compare::<F>(data, &one, &run, &format!("composition {:#b} mode {}", n[1], n[2])).map_err(Violation::new)?;
     ctx.count_distinct(1);
     Ok(())
@@ -179,9 +191,12 @@ fn case_schedule<F: Family>(input: &Input, ctx: &mut Ctx) -> CaseResult {
 fn random_steps(t: &mut Tape, len: usize) -> Vec<Step> {
     let n = t.pick(len.min(160) + 4);
     let big = t.flag();
+    let failing = t.chance(1, 3);
     (0..n)
         .map(|_| {
-            if t.chance(1, 3) {
+            if failing && t.chance(1, 5) {
+                Step::Fail(TRANSIENT[t.pick(TRANSIENT.len())])
+            } else if t.chance(1, 3) {
                 Step::Pending
             } else {
                 Step::Chunk(1 + if big { t.pick(64) } else { t.pick(4) })
@@ -218,13 +233,16 @@ fn case_random<F: Family>(input: &Input, ctx: &mut Ctx) -> CaseResult {
             1 => u64::MAX,
             _ => (t.u16() as u64) | ((t.u16() as u64) << 16) | ((t.u16() as u64) << 32),
         };
-        let style = t.pick(4) as u8;
+        let style = t.pick(4) as u8 | ((t.pick(6) as u8) << 4);
         let run = fam::dec_poll_styled::<F>(&data, &steps, drop_mask, None, true, style);
         if style & 1 == 1 {
             ctx.label("transport-fills-by-initialize-and-advance");
         }
         if style & 2 != 0 && drop_mask != 0 {
             ctx.label("resumed-from-cloned-state");
+        }
+        if run.resumed_after_error > 0 {
+            ctx.label("resumed-after-transient-transport-failure");
         }
         let what = format!("{} stream [{}] under schedule {:?}, drop mask {:#x}, transport fill style {}", F::FAM.name(), origin, &steps[..steps.len().min(24)], drop_mask, style);
         compare::<F>(&data, &one, &run, &what).map_err(Violation::new)?;
@@ -303,8 +321,10 @@ fn case_header_splits<F: Family>(input: &Input, ctx: &mut Ctx) -> CaseResult {
             if big && tail >= 2 {
                 continue;
             }
-            for mode in 0..3u64 {
-                if big && mode == 1 {
+            for mode4 in 0..4u64 {
+                // mode 3: as mode 1, with a transient transport failure in place of every Pending
+                let mode = if mode4 == 3 { 1 } else { mode4 };
+                if big && mode4 == 1 {
                     continue;
                 }
                 let mut steps = composition_steps(k, comp, mode);
@@ -340,7 +360,15 @@ fn case_header_splits<F: Family>(input: &Input, ctx: &mut Ctx) -> CaseResult {
                 if mode >= 1 {
                     steps.push(Step::Pending);
                 }
+                if mode4 == 3 {
+                    for (i, st) in steps.iter_mut().enumerate() {
+                        if *st == Step::Pending {
+                            *st = Step::Fail(TRANSIENT[i % TRANSIENT.len()]);
+                        }
+                    }
+                }
                 let run = fam::dec_poll_scripted::<F>(&data, &steps, if mode == 2 { u64::MAX } else { 0 }, None, true);
+                let mode = mode4;
                 let what = format!("{} PUBLISH with remaining length {} (variant {}), first {} bytes split as {:#b}, tail delivery {}, mode {}", F::FAM.name(), rl, variant, k, comp, tail, mode);
                 compare::<F>(&data, &one, &run, &what).map_err(Violation::new)?;
                 runs += 1;
@@ -397,7 +425,7 @@ pub fn run(env: &mut Env) -> RunResult {
     let (b5, u5, n5) = blocks::<V5>(max_len);
     let n = b5.len() as u64;
     env.run_enum(SUB_C5, n, true, move |i| b5[i as usize].clone())?;
-    env.note(format!("exhaustive part: every composition x 3 modes for {} of {} v3 and {} of {} v5 short streams (length <= {})", u3, n3, u5, n5, max_len));
+    env.note(format!("exhaustive part: every composition x 5 modes (no Pending; Pending before every read; future dropped and re-created at every Pending; the same continuing from a clone of the state; a transient transport failure before every read) for {} of {} v3 and {} of {} v5 short streams (length <= {})", u3, n3, u5, n5, max_len));
     let n = env.tier.sel(20_000, 250_000);
     env.run_tapes(SUB_R3, n, 260)?;
     env.run_tapes(SUB_R5, n * 2, 360)?;
@@ -428,6 +456,7 @@ pub fn run(env: &mut Env) -> RunResult {
     for s in ["c05.random.v3", "c05.random.v5"] {
         env.require(s, "transport-fills-by-initialize-and-advance");
         env.require(s, "resumed-from-cloned-state");
+        env.require(s, "resumed-after-transient-transport-failure");
         for l in ["dropped-at-pending", "pending-inside-var-int", "header-width:2", "header-width:3", "stream:accepted", "stream:rejected-or-incomplete"] {
             env.require(s, l);
         }
